@@ -253,7 +253,7 @@ def rand_blist(rng, n, allow_dask=True, allow_bad=0.02):
     return e
 
 
-def rand_index(rng, shape, mode="get"):
+def rand_index(rng, shape, mode="get", chunks=None):
     """Random NumPy-style index for an array of ``shape``.
 
     mode "get": every construct the C20 statement names.  mode "set": what Array.__setitem__
@@ -289,7 +289,13 @@ def rand_index(rng, shape, mode="get"):
         else:
             fancy_budget -= 1
             if rng.random() < 0.6:
-                enc.append(rand_ilist(rng, n))
+                e = rand_ilist(rng, n)
+                if e["as"] == "dask" and chunks is not None and n > 0 and rng.random() < 0.12:
+                    # "first element of every chunk" (a natural access pattern)
+                    e["v"] = chunk_offsets(chunks[len(enc)])
+                    e["c"] = [1] * len(e["v"]) if rng.random() < 0.7 else comp_of(rng, len(e["v"]))
+                    e["dt"] = "int64"
+                enc.append(e)
             else:
                 enc.append(rand_blist(rng, n))
     # Ellipsis / truncation
@@ -304,7 +310,7 @@ def rand_index(rng, shape, mode="get"):
         enc = [{"k": "ell"}]
     if mode == "get":
         u = rng.random()
-        for _ in range(2 if u < 0.07 else 1 if u < 0.3 else 0):
+        for _ in range(2 if u < 0.04 else 1 if u < 0.16 else 0):
             enc.insert(rng.randint(0, len(enc)), {"k": "none"})
     bare = len(enc) == 1 and rng.random() < 0.7
     return enc, bare
@@ -314,7 +320,8 @@ def rand_vindex(rng, shape):
     """vindex point selection: >= 1 broadcasting integer array, optionally slices / ints / Ellipsis."""
     nd = len(shape)
     k = rng.choice((0, 1, 2, 3, 3, 4, 5, 8))
-    bshape = rng.choice(((k,), (k,), (k,), (k, rng.randint(1, 3)), (rng.randint(1, 3), k), ()))
+    bshape = rng.choice(((k,), (k,), (k,), (k,), (k,), (k, rng.randint(1, 3)), (k, rng.randint(1, 3)), (rng.randint(1, 3), k),
+                         (rng.randint(1, 3), k), () if rng.random() < 0.3 else (k,)))
     kinds = []
     for n in shape:
         kind = rng.choice(("arr", "arr", "arr", "arr", "slice", "slice", "int", "full"))
@@ -334,14 +341,15 @@ def rand_vindex(rng, shape):
             for a in range(len(s)):
                 if rng.random() < 0.25:
                     s[a] = 1
-            s = s[rng.randint(0, len(s)) if rng.random() < 0.3 else 0:]
+            if len(s) > 1 and rng.random() < 0.3:
+                s = s[1:]
+            elif rng.random() < 0.02:
+                s = []
             cnt = int(np.prod(s)) if s else 1
             lo = -n if rng.random() < 0.4 else 0
             v = [rng.randint(lo, n - 1) for _ in range(cnt)]
-            if rng.random() < 0.02:
-                v = v + []
-                if v:
-                    v[0] = n
+            if v and rng.random() < 0.02:
+                v[0] = n  # out of bounds: NumPy rejects
             enc.append({"k": "varr", "v": v, "shape": s, "as": rng.choice(("np", "np", "list"))})
         elif kind == "slice":
             enc.append(rand_slice(rng, n))
@@ -375,7 +383,12 @@ def rand_blocks_index(rng, numblocks):
         if k == "int":
             enc.append({"k": "int", "v": rng.randrange(-nb, nb), "as": "py"})
         elif k == "slice":
-            enc.append(rand_slice(rng, nb))
+            e = rand_slice(rng, nb)
+            for _ in range(6):  # mostly non-empty selections (an empty one has no dask representation)
+                if len(range(nb)[slice(*e["v"])]):
+                    break
+                e = rand_slice(rng, nb)
+            enc.append(e)
         elif k == "full":
             enc.append(copy.deepcopy(FULL))
         else:
@@ -490,6 +503,14 @@ def blocks_reference(x, chunks, nidx):
 # ----------------------------------------------------------------------------------------------
 # feature tokens for labels
 # ----------------------------------------------------------------------------------------------
+def chunk_offsets(c):
+    out, acc = [], 0
+    for ci in c:
+        out.append(acc)
+        acc += ci
+    return out
+
+
 def slice_token(v, n):
     a, b, c = v
     f = []
@@ -510,7 +531,7 @@ def slice_token(v, n):
     return "slice[%s]" % ",".join(f) if f else "slice"
 
 
-def tokens(enc, shape):
+def tokens(enc, shape, chunks=None):
     axes = axis_of_entries(enc, len(shape))
     out = set()
     for e, ax in zip(enc, axes):
@@ -540,11 +561,14 @@ def tokens(enc, shape):
                 f.append("unsorted")
             if k == "varr" and len(e["shape"]) != 1:
                 f.append("%dd" % len(e["shape"]))
+            if (k == "ilist" and e.get("as") == "dask" and chunks is not None and ax is not None and ax < len(chunks) and v
+                    and v == chunk_offsets(chunks[ax]) and all(c == 1 for c in (e.get("c") or [len(v)]))):
+                f.append("=chunk-offsets")
             name = {"list": "int-list", "np": "int-array", "dask": "dask-int-array"}[e.get("as", "list" if k == "ilist" else "np")]
             out.add(name + ("[%s]" % ",".join(f) if f else ""))
         elif k == "blist":
             name = {"list": "bool-list", "np": "bool-array", "dask": "dask-bool-array"}[e.get("as", "list")]
-            out.add(name + ("[none-selected]" if not any(e["v"]) else ""))
+            out.add(name + ("[none-selected]" if len(e["v"]) and not any(e["v"]) else ""))
         elif k == "mask":
             out.add("full-shape-dask-mask" if e.get("as") == "dask" else "full-shape-mask")
     return sorted(out)
@@ -553,145 +577,168 @@ def tokens(enc, shape):
 # ----------------------------------------------------------------------------------------------
 # shrinker
 # ----------------------------------------------------------------------------------------------
-def candidates(enc, shape):
-    """Simpler variants of an index (each differs from enc in one place)."""
+def _entry_candidates(e, n):
+    """Simpler variants of one entry indexing an axis of length n."""
+    k = e["k"]
+    if k == "mask":
+        if e.get("as") == "dask":
+            yield dict(e, **{"as": "np", "c": None})
+            if e.get("c"):
+                yield dict(e, c=None)
+        if e["p"] != 1.1:
+            yield dict(e, p=1.1)
+        return
+    if is_full(e):
+        return
+    yield copy.deepcopy(FULL)
+    if k == "slice":
+        a, b, c = e["v"]
+        if a is not None:
+            yield {"k": "slice", "v": [None, b, c]}
+        if b is not None:
+            yield {"k": "slice", "v": [a, None, c]}
+        if c is not None:
+            yield {"k": "slice", "v": [a, b, None]}
+            if abs(c) > 1:
+                yield {"k": "slice", "v": [a, b, 1 if c > 0 else -1]}
+    elif k == "int":
+        if e.get("as", "py") == "dask":
+            yield {"k": "ilist", "v": [e["v"]], "as": "dask", "dt": "int64", "c": [1]}
+        if e.get("as", "py") != "py":
+            yield dict(e, **{"as": "py"})
+        if e["v"] != 0 and n > 0:
+            yield dict(e, v=0)
+        if e["v"] < 0 and n > 0:
+            yield dict(e, v=e["v"] + n)
+    elif k in ("ilist", "blist", "varr"):
+        how = e.get("as", "list")
+        if k == "blist" and how != "dask":
+            yield {"k": "ilist", "v": [i for i, b in enumerate(e["v"]) if b], "as": how, "dt": "int64"}
+        if how == "dask":
+            yield dict(e, **{"as": "np"})
+        elif how == "np" and k != "varr":
+            yield dict(e, **{"as": "list"})
+        if k == "ilist":
+            v = list(e["v"])
+            if e.get("dt", "int64") != "int64":
+                yield dict(e, dt="int64")
+            if any(i < 0 for i in v) and n:
+                yield dict(e, v=[i + n if i < 0 else i for i in v])
+            if v != sorted(v):
+                yield dict(e, v=sorted(v))
+            if len(set(v)) < len(v):
+                d = list(dict.fromkeys(v))
+                yield dict(e, v=d, c=[len(d)])
+            if len(v) > 1:
+                yield dict(e, v=v[:1], c=[1])
+                yield dict(e, v=v[: len(v) // 2], c=[len(v) // 2])
+                yield dict(e, v=v[len(v) // 2:], c=[len(v) - len(v) // 2])
+            if v == [0] and n > 1:
+                yield dict(e, v=[1])
+            if e.get("c") and len(e["c"]) > 1:
+                yield dict(e, c=[len(v)])
+        elif k == "blist":
+            if not all(e["v"]):
+                yield dict(e, v=[1] * len(e["v"]))
+            if e.get("c") and len(e["c"]) > 1:
+                yield dict(e, c=[len(e["v"])])
+        elif k == "varr":
+            v = list(e["v"])
+            if any(i < 0 for i in v) and n:
+                yield dict(e, v=[i + n if i < 0 else i for i in v])
+            if any(i != 0 for i in v):
+                yield dict(e, v=[0] * len(v))
+            if len(e["shape"]) > 1:
+                yield dict(e, shape=[len(v)])
+
+
+def candidates(enc, shape, chunks, fixed_layout=False):
+    """Simpler (index, shape, chunks) variants, each differing from the input in one place.
+    With ``fixed_layout`` only the index changes (``shape`` then is the index space, e.g. numblocks)."""
     nd = len(shape)
     axes = axis_of_entries(enc, nd)
     for p, (e, ax) in enumerate(zip(enc, axes)):
-        k = e["k"]
-
-        def rep(new):
+        if e["k"] == "none":
+            yield enc[:p] + enc[p + 1:], shape, chunks
+            continue
+        if e["k"] == "ell":
+            used = sum(1 for q in enc if q["k"] not in ("none", "ell"))
+            yield enc[:p] + [copy.deepcopy(FULL) for _ in range(max(0, nd - used))] + enc[p + 1:], shape, chunks
+            continue
+        n = shape[ax] if ax is not None and ax < nd else 0
+        for new in _entry_candidates(e, n):
             out = copy.deepcopy(enc)
             out[p] = new
-            return out
-
-        if k == "none":
-            yield enc[:p] + enc[p + 1:]
+            yield out, shape, chunks
+    if fixed_layout:
+        return
+    # an integer list on a split axis: the first elements of the first two chunks
+    for p, (e, ax) in enumerate(zip(enc, axes)):
+        if e["k"] == "ilist" and ax is not None and ax < nd and len(chunks[ax]) > 1 and chunks[ax][0] < shape[ax]:
+            v = [0, chunks[ax][0]]
+            if list(e["v"]) != v:
+                out = copy.deepcopy(enc)
+                out[p] = dict(e, v=v, c=[2])
+                yield out, shape, chunks
+    # one chunk on an axis
+    for a in range(nd):
+        if len(chunks[a]) > 1:
+            yield enc, shape, chunks[:a] + ((shape[a],),) + chunks[a + 1:]
+    has_mask = any(e["k"] == "mask" for e in enc)
+    has_ell = any(e["k"] == "ell" for e in enc)
+    touched = {ax: p for p, (e, ax) in enumerate(zip(enc, axes)) if ax is not None}
+    for a in range(nd):
+        p = touched.get(a)
+        if shape[a] == 0 and p is not None and not has_mask and enc[p]["k"] in ("blist", "ilist", "slice") and not is_full(enc[p]):
+            # an indexed zero-length axis: give it length 2 (boolean indexers grow with it)
+            enc2 = copy.deepcopy(enc)
+            if enc2[p]["k"] == "blist":
+                enc2[p]["v"] = [1, 1]
+                enc2[p]["c"] = [2]
+            yield enc2, shape[:a] + (2,) + shape[a + 1:], chunks[:a] + ((2,),) + chunks[a + 1:]
+        untouched = has_mask or ((p is None and not has_ell) or (p is not None and is_full(enc[p])))
+        if not untouched:
             continue
-        if k == "ell":
-            used = sum(1 for q in enc if q["k"] not in ("none", "ell"))
-            yield enc[:p] + [copy.deepcopy(FULL) for _ in range(max(0, nd - used))] + enc[p + 1:]
-            continue
-        if k == "mask":
-            if e.get("as") == "dask":
-                yield rep(dict(e, **{"as": "np", "c": None}))
-                if e.get("c"):
-                    yield rep(dict(e, c=None))
-            if e["p"] != 1.1:
-                yield rep(dict(e, p=1.1))
-            continue
-        if is_full(e):
-            continue
-        yield rep(copy.deepcopy(FULL))
-        n = shape[ax] if ax is not None and ax < nd else 0
-        if k == "slice":
-            a, b, c = e["v"]
-            if a is not None:
-                yield rep({"k": "slice", "v": [None, b, c]})
-            if b is not None:
-                yield rep({"k": "slice", "v": [a, None, c]})
-            if c is not None:
-                yield rep({"k": "slice", "v": [a, b, None]})
-                if abs(c) > 1:
-                    yield rep({"k": "slice", "v": [a, b, 1 if c > 0 else -1]})
-        elif k == "int":
-            if e.get("as", "py") != "py":
-                yield rep(dict(e, **{"as": "py"}))
-            if e["v"] != 0 and n > 0:
-                yield rep(dict(e, v=0))
-            if e["v"] < 0 and n > 0:
-                yield rep(dict(e, v=e["v"] + n))
-        elif k in ("ilist", "blist", "varr"):
-            how = e.get("as", "list")
-            if how == "dask":
-                yield rep(dict(e, **{"as": "np"}))
-            elif how == "np" and k != "varr":
-                yield rep(dict(e, **{"as": "list"}))
-            if k == "ilist":
-                v = list(e["v"])
-                if e.get("dt", "int64") != "int64":
-                    yield rep(dict(e, dt="int64"))
-                if len(v) > 1:
-                    yield rep(dict(e, v=v[:1], c=[1]))
-                    yield rep(dict(e, v=v[: len(v) // 2], c=[len(v) // 2]))
-                    yield rep(dict(e, v=v[len(v) // 2:], c=[len(v) - len(v) // 2]))
-                if any(i < 0 for i in v) and n:
-                    yield rep(dict(e, v=[i + n if i < 0 else i for i in v]))
-                if v != sorted(v):
-                    yield rep(dict(e, v=sorted(v)))
-                if len(set(v)) < len(v):
-                    d = list(dict.fromkeys(v))
-                    yield rep(dict(e, v=d, c=[len(d)]))
-                if e.get("c") and len(e["c"]) > 1:
-                    yield rep(dict(e, c=[len(v)]))
-            elif k == "blist":
-                if not all(e["v"]):
-                    yield rep(dict(e, v=[1] * len(e["v"])))
-                if e.get("c") and len(e["c"]) > 1:
-                    yield rep(dict(e, c=[len(e["v"])]))
-            elif k == "varr":
-                v = list(e["v"])
-                if any(i < 0 for i in v) and n:
-                    yield rep(dict(e, v=[i + n if i < 0 else i for i in v]))
-                if any(i != 0 for i in v):
-                    yield rep(dict(e, v=[0] * len(v)))
-    # drop trailing full slices is not attempted: tokens ignore them
+        # drop the axis
+        if nd > 1 or not has_mask:
+            enc2 = enc if (has_mask or p is None) else enc[:p] + enc[p + 1:]
+            enc2 = [dict(e, c=None) if e["k"] == "mask" else e for e in enc2]
+            yield enc2, shape[:a] + shape[a + 1:], chunks[:a] + chunks[a + 1:]
+        # a zero-length axis that is not indexed: give it length 2
+        if shape[a] == 0:
+            enc2 = [dict(e, c=None) if e["k"] == "mask" else e for e in enc]
+            yield enc2, shape[:a] + (2,) + shape[a + 1:], chunks[:a] + ((2,),) + chunks[a + 1:]
 
 
-def shrink(enc, shape, chunks, same, budget=120):
-    """Greedy reduction.  ``same(enc, shape, chunks)`` -> True when the failure with the same symptom
-    persists.  Returns (enc, shape, chunks, needs_split)."""
+def shrink(enc, shape, chunks, probe, sym, accept=None, budget=150, fixed_layout=False):
+    """Greedy reduction.  ``probe(enc, shape, chunks)`` -> symptom of the failure or None.
+    accept(symptom) decides whether a failing variant is taken (default: same symptom only); the symptom
+    follows the accepted variant.  Returns (enc, shape, chunks, symptom)."""
     shape = tuple(shape)
     chunks = tuple(tuple(c) for c in chunks)
     changed = True
     while changed and budget > 0:
         changed = False
-        for cand in candidates(enc, shape):
+        for enc2, shape2, chunks2 in candidates(enc, shape, chunks, fixed_layout):
             budget -= 1
             if budget <= 0:
                 break
             try:
-                ok = same(cand, shape, chunks)
+                s = probe(enc2, shape2, chunks2)
             except Exception:  # noqa: BLE001 - a harness problem while shrinking never decides anything
-                ok = False
-            if ok:
-                enc = cand
+                s = None
+            if s is not None and (accept(s) if accept else s == sym):
+                enc, shape, chunks, sym = enc2, tuple(shape2), tuple(chunks2), s
                 changed = True
                 break
-    single = tuple((n,) for n in shape)
-    needs_split = False
-    if chunks != single:
-        try:
-            ok = same(enc, shape, single)
-        except Exception:  # noqa: BLE001
-            ok = False
-        if ok:
-            chunks = single
-        else:
-            needs_split = True
-    # zero-length axes that are not indexed: does the failure need them?
-    zero_needed = 0 in shape
-    if 0 in shape:
-        axes = axis_of_entries(enc, len(shape))
-        touched = {ax for e, ax in zip(enc, axes) if ax is not None and not is_full(e)}
-        if any(e["k"] == "mask" for e in enc):
-            touched = set(range(len(shape)))
-        if not any(shape[a] == 0 for a in touched):
-            shape2 = tuple(2 if n == 0 else n for n in shape)
-            chunks2 = tuple((2,) if n == 0 else c for n, c in zip(shape, chunks))
-            try:
-                if same(enc, shape2, chunks2):
-                    shape, chunks, zero_needed = shape2, chunks2, False
-            except Exception:  # noqa: BLE001
-                pass
-    return enc, shape, chunks, needs_split, zero_needed
+    return enc, shape, chunks, sym
 
 
-def label_features(enc, shape, needs_split, zero_needed):
-    t = "+".join(tokens(enc, shape)) or "full-slices"
-    if needs_split:
+def label_features(enc, shape, chunks, layout=True):
+    t = "+".join(tokens(enc, shape, chunks if layout else None)) or "full-slices"
+    if layout and any(len(c) > 1 for c in chunks):
         t += "&split-chunks"
-    if zero_needed:
+    if layout and 0 in shape:
         t += "&zero-length-axis"
     return t
 
